@@ -1,3 +1,59 @@
-//! Builder clause of C16 (filled in together with the generated Builder call stubs).
-use crate::util::{Cfg, Report};
-pub fn run(_cfg: &Cfg, _rep: &mut Report) {}
+//! Builder clause of C16: the Builder ends a block for exactly the opcodes the specification
+//! classifies as block-termination instructions.
+
+use crate::bmodel::{method, method_sems, ArgCtx, MClass, RandArgs};
+use crate::spec;
+use crate::util::{catch, run_stage, Cfg, Report};
+use rspirv::dr::Builder;
+use rspirv::spirv::FunctionControl;
+
+pub fn open_block_builder() -> Builder {
+    let mut b = Builder::new();
+    b.begin_function(900_001, Some(900_002), FunctionControl::NONE, 900_003).expect("begin_function on a fresh builder");
+    b.begin_block(Some(900_004)).expect("begin_block");
+    b
+}
+
+pub fn run(cfg: &Cfg, rep: &mut Report) {
+    let sems = method_sems();
+    let block_level: Vec<usize> = sems.iter().filter(|m| matches!(m.class, MClass::BlockInst | MClass::TerminatorFile)).map(|m| m.idx).collect();
+    let bl = &block_level;
+    run_stage(cfg, rep, "builder-terminators", block_level.len() as u64, |i, rng, r| {
+        let sem = &sems[bl[i as usize]];
+        let mi = method(sem.idx);
+        let call = match mi.call {
+            Some(c) => c,
+            None => return,
+        };
+        let opname = match &sem.opname {
+            Some(o) => o.clone(),
+            None => {
+                r.inconclusive.push(format!("Builder method {} does not map to an opcode by the naming rule", sem.name));
+                return;
+            }
+        };
+        let rp = || crate::util::replay_ref(cfg, "builder-terminators", i).set("method", sem.name);
+        let mut b = open_block_builder();
+        let ctx = ArgCtx { insert_end_only: true, ..Default::default() };
+        let mut marker = 1000;
+        let mut args = RandArgs::new(rng, &mut marker, &ctx, sem.name);
+        let out = match catch(|| call(&mut b, &mut args)) {
+            Ok(o) => o,
+            Err(p) => {
+                r.violation(format!("C16:builder-panic:{}", sem.name), format!("Builder::{} panicked with an open block: {}", sem.name, p.msg), rp());
+                return;
+            }
+        };
+        if out.is_err() {
+            r.violation(format!("C16:builder-call-failed:{}", sem.name), format!("Builder::{} failed with an open block: {:?}", sem.name, out.err_name()), rp());
+            return;
+        }
+        let closed = b.selected_block().is_none();
+        let want = spec::is_block_terminator(&opname);
+        if closed != want {
+            let base = sem.name.strip_prefix("insert_").unwrap_or(sem.name);
+            r.violation(format!("C16:builder-block-end:{}", base), format!("Builder::{} (Op{}) {} the block; Op{} {} a block-termination instruction", sem.name, opname, if closed { "ends" } else { "does not end" }, opname, if want { "is" } else { "is not" }), rp());
+        }
+        r.nontrivial(format!("builder:{}", sem.name));
+    });
+}
